@@ -48,6 +48,8 @@ pub struct EvInfo {
     pub msg: Option<(u64, EventId)>,
     pub ckind: String,
     pub refs: Vec<u64>,     // commit: proposal events it commits by reference
+    pub auth: bool,         // commit: authorised (admin author, or pure self-update)
+    pub removes: Vec<usize>,
 }
 
 pub struct World<S: MdkStorageProvider> {
@@ -163,6 +165,26 @@ impl<S: MdkStorageProvider> World<S> {
             if msgs.is_empty() { "-".into() } else { msgs.iter().map(|(i, s, e)| format!("{i}:{s}:{e}")).collect::<Vec<_>>().join(",") })
     }
 
+    /// Sorted member indices of the group as client c sees it (public API).
+    pub fn members_of(&self, c: usize) -> Vec<usize> {
+        let mut v: Vec<usize> = self.clients[c].mdk.get_members(&self.gid).unwrap_or_default().iter()
+            .filter_map(|pk| self.clients.iter().position(|x| x.keys.public_key() == *pk)).collect();
+        v.sort(); v
+    }
+    /// Wrap raw MLS message bytes exactly as build_message_event does (exporter secret of m's current epoch, NIP-44, h tag).
+    fn wrap_raw(&self, m: usize, bytes: Vec<u8>, ts: u64) -> Event {
+        use nostr::nips::nip44;
+        let grp = self.clients[m].mdk.get_group(&self.gid).unwrap().unwrap();
+        let mls = self.clients[m].mdk.load_mls_group(&self.gid).unwrap().unwrap();
+        let secret = mls.export_secret(self.clients[m].mdk.provider.crypto(), "nostr", b"nostr", 32).unwrap();
+        let keys = Keys::new(nostr::SecretKey::from_slice(&secret).unwrap());
+        let content = nip44::encrypt(keys.secret_key(), &keys.public_key, &bytes, nip44::Version::default()).unwrap();
+        EventBuilder::new(Kind::MlsGroupMessage, content)
+            .tag(nostr::Tag::custom(nostr::TagKind::h(), [hex::encode(grp.nostr_group_id)]))
+            .custom_created_at(nostr::Timestamp::from(self.base_ts + ts))
+            .sign_with_keys(&Keys::generate()).unwrap()
+    }
+
     fn set_ts(&self, ts: u64) { mdk_core::verif_hooks::set_wrapper_created_at(Some(self.base_ts + ts)); }
 
     /// Execute one case line; returns (line with facts appended, implementation fingerprint).
@@ -187,7 +209,7 @@ impl<S: MdkStorageProvider> World<S> {
                     Ok(Ok(u)) => {
                         self.register_pending(m, ev);
                         let key = id_order_key(&u.evolution_event.id);
-                        self.events.insert(ev, EvInfo { event: u.evolution_event, kind: "commit".into(), author: m, state: st.parse().unwrap_or(9999), epoch: ep, ts, msg: None, ckind: kind.into(), refs: swept.iter().filter_map(|x| self.leave_ev.get(x)).cloned().collect() });
+                        self.events.insert(ev, EvInfo { event: u.evolution_event, kind: "commit".into(), author: m, state: st.parse().unwrap_or(9999), epoch: ep, ts, msg: None, ckind: kind.into(), refs: swept.iter().filter_map(|x| self.leave_ev.get(x)).cloned().collect(), auth: is_admin || (kind == "su" && swept.is_empty()), removes: swept.clone() });
                         let removes = if swept.is_empty() { "-".to_string() } else { swept.iter().map(|x| x.to_string()).collect::<Vec<_>>().join(",") };
                         let refs: Vec<String> = swept.iter().filter_map(|x| self.leave_ev.get(x)).map(|e| e.to_string()).collect();
                         let refs = if refs.is_empty() { "-".to_string() } else { refs.join(",") };
@@ -196,6 +218,40 @@ impl<S: MdkStorageProvider> World<S> {
                     }
                     Ok(Err(_)) => (format!("{} | refused=1 admin={}", t.join(" "), is_admin as u8), self.fingerprint(m, "Err", None, None)),
                     Err(_) => (format!("{} | refused=1", t.join(" ")), "PANIC".into()),
+                }
+            }
+            "ADV" => {
+                // a member builds a commit directly with OpenMLS, bypassing MDK's sender-side checks: PR ADV <m> rm <victim> <ev> <ts>
+                use openmls::prelude::BasicCredential;
+                use openmls_basic_credential::SignatureKeyPair;
+                use tls_codec::Serialize as _;
+                let (m, victim, ev, ts) = (n(2) as usize, n(4) as usize, n(5), n(6));
+                let st = self.sigma_of(m, None); let ep = self.mls_epoch(m);
+                let is_admin = self.admin_mask & (1 << m) != 0;
+                let built = catch_unwind(AssertUnwindSafe(|| -> Option<Vec<u8>> {
+                    let mdk = &self.clients[m].mdk;
+                    let mut mls = mdk.load_mls_group(&self.gid).ok()??;
+                    if mls.pending_commit().is_some() { return None; }
+                    let leaf = mls.own_leaf()?;
+                    let signer = SignatureKeyPair::read(mdk.provider.storage(), leaf.signature_key().as_slice(), mls.ciphersuite().signature_algorithm())?;
+                    let vpk = self.clients[victim].keys.public_key();
+                    let vleaf = mls.members().find(|mm| BasicCredential::try_from(mm.credential.clone()).map(|c| c.identity() == vpk.to_bytes()).unwrap_or(false))?.index;
+                    let (commit, _w, _gi) = mls.remove_members(&mdk.provider, &signer, &[vleaf]).ok()?;
+                    let bytes = commit.tls_serialize_detached().ok()?;
+                    // the adversary does not keep the commit pending in its own client
+                    mls.clear_pending_commit(mdk.provider.storage()).ok()?;
+                    Some(bytes)
+                }));
+                match built {
+                    Ok(Some(bytes)) => {
+                        let e = self.wrap_raw(m, bytes, ts);
+                        let key = id_order_key(&e.id);
+                        let swept: Vec<usize> = vec![];
+                        let _ = swept;
+                        self.events.insert(ev, EvInfo { event: e, kind: "commit".into(), author: m, state: st.parse().unwrap_or(9999), epoch: ep, ts, msg: None, ckind: "adv-rm".into(), refs: vec![], auth: is_admin, removes: vec![victim] });
+                        (format!("{} | author={m} parent={st} pepoch={ep} idkey={key} auth={} data=0 removes={victim} refs=-", t.join(" "), is_admin as u8), "ok".into())
+                    }
+                    _ => (format!("{} | refused=1", t.join(" ")), "ok".into()),
                 }
             }
             "MERGE" => {
@@ -216,13 +272,16 @@ impl<S: MdkStorageProvider> World<S> {
                 let mut rumor: UnsignedEvent = EventBuilder::new(Kind::Custom(9), format!("text {msg}")).custom_created_at(nostr::Timestamp::from(self.base_ts + msg)).build(self.clients[m].keys.public_key());
                 rumor.ensure_id();
                 let rid = rumor.id.unwrap();
+                // optional 7th token: number of an existing message whose id the (malicious) sender pre-sets on its rumor
+                let victim = if t.len() > 6 { self.msg_ids.iter().find(|(_, n)| **n == t[6].parse::<u64>().unwrap()).map(|(id, _)| *id) } else { None };
+                if let Some(vid) = victim { rumor.id = Some(vid); }
                 let gid = self.gid.clone();
                 let r = catch_unwind(AssertUnwindSafe(|| self.clients[m].mdk.create_message(&gid, rumor)));
                 match r {
                     Ok(Ok(e)) => {
                         self.msg_ids.insert(rid, msg);
-                        self.events.insert(ev, EvInfo { event: e, kind: "app".into(), author: m, state: st.parse().unwrap_or(9999), epoch: ep, ts, msg: Some((msg, rid)), ckind: String::new(), refs: vec![] });
-                        (format!("{} | author={m} state={st} epoch={ep}", t.join(" ")), self.fingerprint(m, "ok", None, Some(ev)))
+                        self.events.insert(ev, EvInfo { event: e, kind: "app".into(), author: m, state: st.parse().unwrap_or(9999), epoch: ep, ts, msg: Some((msg, rid)), ckind: String::new(), refs: vec![], auth: true, removes: vec![] });
+                        (format!("{} | author={m} state={st} epoch={ep}{}", t.join(" "), if victim.is_some() { format!(" sender_key={}", t[6]) } else { String::new() }), self.fingerprint(m, "ok", None, Some(ev)))
                     }
                     Ok(Err(_)) => (format!("{} | refused=1", t.join(" ")), self.fingerprint(m, "Err", None, None)),
                     Err(_) => (format!("{} | refused=1", t.join(" ")), "PANIC".into()),
@@ -238,7 +297,7 @@ impl<S: MdkStorageProvider> World<S> {
                     Ok(Ok(u)) => {
                         self.leave_ev.insert(m, ev);
                         let key = id_order_key(&u.evolution_event.id);
-                        self.events.insert(ev, EvInfo { event: u.evolution_event, kind: "prop".into(), author: m, state: st.parse().unwrap_or(9999), epoch: ep, ts, msg: None, ckind: "leave".into(), refs: vec![] });
+                        self.events.insert(ev, EvInfo { event: u.evolution_event, kind: "prop".into(), author: m, state: st.parse().unwrap_or(9999), epoch: ep, ts, msg: None, ckind: "leave".into(), refs: vec![], auth: true, removes: vec![] });
                         (format!("{} | author={m} state={st} epoch={ep} idkey={key}", t.join(" ")), self.fingerprint(m, "ok", None, Some(ev)))
                     }
                     Ok(Err(_)) => (format!("{} | refused=1", t.join(" ")), self.fingerprint(m, "Err", None, None)),
@@ -263,7 +322,7 @@ impl<S: MdkStorageProvider> World<S> {
                 };
                 let e = b.custom_created_at(created).sign_with_keys(&keys).unwrap();
                 let model_cls = match cls { 0 | 4 => 0, 1 => 1, 2 => 2, _ => 3 };
-                self.events.insert(ev, EvInfo { event: e, kind: "bad".into(), author: 99, state: 9999, epoch: 0, ts, msg: None, ckind: format!("bad{cls}"), refs: vec![] });
+                self.events.insert(ev, EvInfo { event: e, kind: "bad".into(), author: 99, state: 9999, epoch: 0, ts, msg: None, ckind: format!("bad{cls}"), refs: vec![], auth: false, removes: vec![] });
                 (format!("{} | bad={model_cls}", t.join(" ")), "ok".into())
             }
             "DELIVER" => {
@@ -282,7 +341,7 @@ impl<S: MdkStorageProvider> World<S> {
                             self.register_pending(m, aev);
                             let st = self.sigma_of(m, None); let ep = self.mls_epoch(m);
                             let key = id_order_key(&u.evolution_event.id);
-                            self.events.insert(aev, EvInfo { event: u.evolution_event.clone(), kind: "commit".into(), author: m, state: st.parse().unwrap_or(9999), epoch: ep, ts: ats, msg: None, ckind: "auto".into(), refs: vec![ev] });
+                            self.events.insert(aev, EvInfo { event: u.evolution_event.clone(), kind: "commit".into(), author: m, state: st.parse().unwrap_or(9999), epoch: ep, ts: ats, msg: None, ckind: "auto".into(), refs: vec![ev], auth: true, removes: vec![info.author] });
                             line = format!("{line} | autoev={aev} autokey={key} autots={ats}");
                         }
                         let fresh = if info.kind == "commit" { Some(ev) } else { None };
